@@ -24,15 +24,17 @@ from vf.ref import c19_peaks_ref as ref
 PROPERTY_ID = "C19"
 LEVEL = "exploration"
 RULE = (
-    "Descriptors are drawn from Hypothesis strategies: hit sets (1-12 hits, 4 channels, dt in {1,2,10}) with "
-    "gap threshold, extensions, max duration, area/channel cuts (find_peaks); pulses cut into records with hits "
-    "and integration bounds, 8-sample peak buffers so that down-sampling happens (sum_waveform, split_peaks); "
-    "lists of 2-6 disjoint peaks with mixed dt (merge_peaks, replace_merged; index sets also enumerated "
-    "exhaustively for <=5 peaks); waveforms of <=8 samples over a small alphabet (moving average, goodness of "
-    "split, area fractions, widths, centre time, highest density region; enumerated exhaustively for <=5 "
-    "samples).  A case is non-trivial when it has >=2 peaks, a duration-rule split, down-sampling, a merge of "
-    ">=2 peaks, a real split, or wing >= 1 with len > 2*wing+1 (helpers: >=3 samples with >=2 non-zero).  "
-    "distinct = distinct descriptor hashes."
+    "Descriptors are drawn from Hypothesis strategies: hit sets (1-12 hits, 4 channels, dt in {1,2,10}) with gap "
+    "threshold, extensions, max duration, area/channel cuts (find_peaks; find_peak_groups on seeded hit sets in the "
+    "thorough tier); 1-6 pulses cut into 6-sample records with hits and integration bounds, 8-sample peak buffers so "
+    "that down-sampling happens (sum_waveform, split_peaks with both splitters, 1-3 iterations); lists of 2-6 disjoint "
+    "peaks with mixed dt, merge index sets and `merged` masks (merge_peaks + replace_merged; index sets enumerated "
+    "exhaustively for 2-5 peaks, thorough: every admissible mask and the endtime-field dtype); free-form merged "
+    "intervals over <=8 originals (replace_merged); waveforms of <=9 samples over a 5-letter alphabet (moving average, "
+    "goodness of split, area fractions / widths / centre time, highest density region), and ALL waveforms of <=6 "
+    "(quick) / <=8 (thorough) samples over {0,1,3}.  A case is non-trivial when it has >=2 peaks, a duration-rule "
+    "split, down-sampling, a merge of >=2 peaks, a real split, wing >= 1 with len > 2*wing+1, or (helpers) >=3 "
+    "samples with >=2 non-zero.  distinct = distinct descriptor hashes."
 )
 ASSUMPTIONS = [
     "hits sorted by time, one common dt, positive length, channel < len(adc_to_pe); gap_threshold > left+right "
